@@ -15,6 +15,19 @@ G  TLC Gen_Analyze: every structure of the bound with the specification's verdic
 V  seeded random worlds (<= 8 pages, wider spelling universe taken from the language
         data) run through the real code, recorded, and validated by Trace_Analyze: TLC
         runs the model's algorithm on each recorded world and judges the recorded result.
+H  histories / earlier marks (the database already carries need_pre_expand marks when the
+        judged call starts: re-analysis after templates were added or overwritten, rows
+        written with need_pre_expand=True, overwrite files):
+        M  MC_Analyze MCHSpec (analyse, add / overwrite the last page, analyse again; action
+           Rerun) and MCPSpec (arbitrary earlier marks); Demo_Analyze_reseed: TLC finds the
+           counterexample of the as-is deviation MarkedNotReseeded;
+        G  Gen_Analyze GenHInv: every structure x every set of earlier marks x every flag set
+           with <<Lower, UpperH, IdealH, AsIsH>>; the earlier marks are produced in three ways
+           in rotation (HMODES: add_page(need_pre_expand=True) / a real first analysis after
+           which the other templates are added / an overwrite file through
+           dumpparser.analyze_and_overwrite_pages); SimH: 8-page worlds with earlier marks;
+        V  recorded random histories (add, analyse, add + overwrite, analyse, ...), one event
+           per call with the marks read before it, validated by Trace_Analyze.
 """
 from __future__ import annotations
 
@@ -70,6 +83,17 @@ class NonTermination(Exception):
     pass
 
 
+class FirstAnalysis(Exception):
+    pass
+
+
+# how the marks that exist before the judged call are produced
+H_DIRECT, H_HISTORY, H_OVERWRITE = 0, 1, 2
+HMODES = {H_DIRECT: "pages written with add_page(need_pre_expand=True)",
+          H_HISTORY: "marks left by an earlier analyze_templates call, templates added afterwards",
+          H_OVERWRITE: "overwrite file with need_pre_expand: true through dumpparser.analyze_and_overwrite_pages"}
+
+
 def _alarm(signum, frame):
     raise NonTermination()
 
@@ -103,6 +127,9 @@ class Runner:
         sub = self.dir / f"db{self.n}"
         sub.mkdir()
         self.ctx = Wtp(db_path=str(sub / "pages.db"), quiet=True)
+        # durability of the scratch database is irrelevant here: no fsync per commit
+        # (a run costs 0.2 ms instead of 3-9 ms on the shared disk)
+        self.ctx.db_conn.execute("PRAGMA synchronous=OFF")
         return self.ctx
 
     def drop(self):
@@ -113,17 +140,19 @@ class Runner:
                 pass
             self.ctx = None
 
-    def run(self, pages, flags: set, via_dump_step: bool = False):
+    def run(self, pages, flags: set, via_dump_step: bool = False, pre=frozenset(), hmode: int = 0):
         """pages: [{title, redirect, uses}] (atoms); flags: indices (0-based).
+        pre: indices of the pages that carry need_pre_expand = 1 when the judged call
+        starts; hmode says how that state is produced (see HMODES).
         Returns (observed mask | None, note)."""
         if _nonterm is not None and _nonterm.value >= GIVE_UP_AFTER:
             return None, "skipped"
-        r = self._run(pages, flags, via_dump_step, False)
+        r = self._run(pages, flags, via_dump_step, False, pre, hmode)
         if r[0] == "retry":  # expired once: confirm on a fresh context with a longer limit
             global TIMEOUT_S
             keep, TIMEOUT_S = TIMEOUT_S, 3 * TIMEOUT_S
             try:
-                r = self._run(pages, flags, via_dump_step, True)
+                r = self._run(pages, flags, via_dump_step, True, pre, hmode)
             finally:
                 TIMEOUT_S = keep
             if r[1] == "nontermination" and _nonterm is not None:
@@ -131,28 +160,68 @@ class Runner:
                     _nonterm.value += 1
         return r
 
-    def _run(self, pages, flags, via_dump_step, _retry):
+    def _run(self, pages, flags, via_dump_step, _retry, pre=frozenset(), hmode=0):
         ctx = self.fresh()
         tns = ctx.NAMESPACE_DATA["Template"]["id"]
         titles = [conc(p["title"]) for p in pages]
         flagged = {titles[i] for i in flags}
-        for p, t in zip(pages, titles):
+        if not pre:
+            hmode = 0
+        now_flagged = set(flagged)  # what the classifier answers at the moment
+
+        def content(p):
             red = conc_red(p["redirect"])
             if red is None:
-                body = "intro " + " and ".join("{{%s|1=x}}" % conc(w) for w in p["uses"]) + " end"
-                ctx.add_page(t, tns, body=body)
+                return {"body": "intro " + " and ".join("{{%s|1=x}}" % conc(w) for w in p["uses"]) + " end"}
+            return {"redirect_to": red}
+
+        def add(i, mark=False):
+            if mark:
+                ctx.add_page(titles[i], tns, need_pre_expand=True, **content(pages[i]))
             else:
-                ctx.add_page(t, tns, redirect_to=red)
+                ctx.add_page(titles[i], tns, **content(pages[i]))
 
         def classifier(wtp, page):
             used = set(re.findall(r"\{\{([^|{}]+)", page.body)) if page.body else set()
-            return used, page.title in flagged
+            return used, page.title in now_flagged
+
+        overwrite = None
+        if hmode == H_DIRECT:  # rows written with need_pre_expand=True
+            for i in range(len(pages)):
+                add(i, i in pre)
+        elif hmode == H_HISTORY:  # the marks are left behind by an earlier analysis
+            for i in sorted(pre):
+                add(i)
+        else:  # H_OVERWRITE: an overwrite file re-writes the pages with need_pre_expand: true
+            for i in range(len(pages)):
+                add(i)
+            overwrite = self.dir / "overwrite.json"
+            overwrite.write_text(json.dumps(
+                {titles[i]: dict(namespace_id=tns, need_pre_expand=True, **content(pages[i])) for i in sorted(pre)}),
+                encoding="utf-8")
 
         def call(limit):
+            nonlocal now_flagged
             signal.signal(signal.SIGALRM, _alarm)
             signal.setitimer(signal.ITIMER_REAL, limit)
             try:
-                if via_dump_step:
+                if hmode == H_HISTORY:
+                    # first analysis: only the pages of `pre` exist, the classifier flags them all
+                    now_flagged = {titles[i] for i in pre}
+                    ctx.analyze_templates(classifier)
+                    first = {p.title for p in ctx.get_all_pages([tns]) if p.need_pre_expand}
+                    if first != now_flagged:
+                        raise FirstAnalysis(f"first analysis (every page flagged) marked {sorted(first)} of {sorted(now_flagged)}")
+                    for i in range(len(pages)):  # templates added afterwards
+                        if i not in pre:
+                            add(i)
+                    now_flagged = set(flagged)
+                    ctx.analyze_templates(classifier)
+                elif hmode == H_OVERWRITE:
+                    from wikitextprocessor.dumpparser import analyze_and_overwrite_pages
+
+                    analyze_and_overwrite_pages(ctx, [overwrite], False, classifier)
+                elif via_dump_step:
                     from wikitextprocessor.dumpparser import analyze_and_overwrite_pages
 
                     analyze_and_overwrite_pages(ctx, None, False, classifier)
@@ -169,6 +238,9 @@ class Runner:
                 return "retry", ""
             self.drop()
             return None, "nontermination"
+        except FirstAnalysis as e:
+            self.drop()
+            return None, str(e)
         except Exception as e:  # noqa: BLE001
             self.drop()
             return None, "exception " + repr(e)
@@ -199,6 +271,20 @@ def judge(obs, note, lower, upper, asis):
     return "bad", "over-marked"
 
 
+def judge_h(obs, note, lower, upper, ideal, asis):
+    """A call on a database that already carries marks.
+    -> (kind, why); kind in ok | drift | reseed | bad"""
+    if obs is None:
+        return ("skipped", note) if note == "skipped" else ("bad", note)
+    if subset(lower, obs) and subset(obs, upper):
+        return ("ok", "") if obs == ideal else ("drift", "marks differ from the closure of flagged + earlier marks but contain everything the statement demands and nothing beyond its most generous reading")
+    if obs == asis:
+        return "reseed", "under-marked: a template that transitively includes a flagged one only through a template marked before the call stays unmarked"
+    if not subset(lower, obs):
+        return "bad", "under-marked"
+    return "bad", "over-marked"
+
+
 def names_of(pages, mask):
     return [conc(p["title"]) for i, p in enumerate(pages) if mask >> i & 1]
 
@@ -215,6 +301,9 @@ def run_chunk(chunk):
         for k, s in chunk:
             pages = s["pages"]
             linked = any(p["uses"] or p["redirect"] != ["-"] for p in pages)
+            if "hres" in s:
+                out.append(run_hist(r, k, s, linked))
+                continue
             todo = [(s["flags"], s["res"])] if "flags" in s else list(enumerate(s["res"]))
             bad, n, nontriv = [], 0, []
             for m, res in todo:
@@ -234,7 +323,88 @@ def run_chunk(chunk):
     return out
 
 
+def run_hist(r, k, s, linked):
+    """One structure with verdicts for calls on a database that already carries marks:
+    hres[q-1][m] = (Lower, UpperH, IdealH, AsIsH) for earlier marks q and flags m, or a
+    single (pre, flags, hres).  The way the earlier marks are produced rotates over HMODES.
+    -> (k, evaluations, non-trivial (m, q), [(m, q, mode, res, obs, kind, why, control)])"""
+    pages = s["pages"]
+    if "pre" in s:
+        todo = [(s["flags"], s["pre"], s["hres"])]
+    else:
+        # (every page marked already / every page flagged: the result cannot differ, not run)
+        full = (1 << len(pages)) - 1
+        todo = [(m, q, res) for q, row in enumerate(s["hres"], 1) for m, res in enumerate(row)
+                if len(pages) < 3 or (q != full and m != full)]
+    bad, n, nontriv = [], 0, []
+    for m, q, res in todo:
+        flags = {i for i in range(len(pages)) if m >> i & 1}
+        pre = frozenset(i for i in range(len(pages)) if q >> i & 1)
+        mode = s.get("mode", (k + m + q) % 3)
+        obs, note = r.run(pages, flags, pre=pre, hmode=mode)
+        kind, why = judge_h(obs, note, *res)
+        if kind != "skipped":
+            n += 1
+            if linked:
+                nontriv.append((m, q))
+        if kind != "ok":
+            ctl = None
+            if kind == "bad":  # differential diagnosis: the same pages and flags on a fresh database
+                ctl = r.run(pages, flags)[0]
+            bad.append((m, q, mode, res, obs, kind, why, ctl))
+    return (k, n, nontriv, bad)
+
+
 MAXV = 60  # violating cases kept per class (the count is exact)
+DEV_RESEED = "MarkedNotReseeded"
+
+
+def report_h(o: Outcome, structs, results, gen: str, counts: dict):
+    gid = {"exhaustive": 3, "simulate": 4, "selftest": 5}[gen]
+    for k, n, nontriv, bad in results:
+        o.evaluations += n
+        for mq in nontriv:
+            o.shapes.add((gid, k) + tuple(mq))
+        pages = structs[k]["pages"]
+        for m, q, mode, res, obs, kind, why, ctl in bad:
+            if kind == "skipped":
+                counts["skipped after repeated non-termination"] = counts.get("skipped after repeated non-termination", 0) + 1
+                continue
+            lower, upper, ideal, asis = res
+            case = {
+                "kind": "H", "gen": gen,
+                "pages": [{"title": conc(p["title"]), "redirect": conc_red(p["redirect"]),
+                           "uses": [conc(w) for w in p["uses"]]} for p in pages],
+                "abstract": {"pages": pages, "flags": m, "pre": q, "hres": res, "mode": mode},
+                "marked_before_the_call": names_of(pages, q),
+                "how": HMODES[mode],
+                "flagged": names_of(pages, m),
+                "marked_by_code": None if obs is None else names_of(pages, obs),
+                "required": names_of(pages, lower),
+                "closure_of_flagged_and_earlier_marks": names_of(pages, ideal),
+                "allowed_at_most": names_of(pages, upper),
+            }
+            if kind == "drift":
+                o.note_drift(case)
+                continue
+            counts["H:" + kind + ":" + why] = counts.get("H:" + kind + ":" + why, 0) + 1
+            if counts["H:" + kind + ":" + why] > MAXV:
+                continue
+            ctx_txt = (f"analyze_templates on a database that already carries marks (marked before the call: {case['marked_before_the_call']}; "
+                       f"{HMODES[mode]}; flagged by the classifier: {case['flagged']})")
+            if kind == "reseed":
+                o.classify(case, f"{ctx_txt} marked {case['marked_by_code']}, the property requires {case['required']}: {why}",
+                           [DEV_RESEED], cls="H:reseed")
+                continue
+            diag = ""
+            if ctl is not None:
+                case["marked_on_fresh_database"] = names_of(pages, ctl)
+                if why == "under-marked" and subset(lower, ctl):
+                    missing = names_of(pages, lower & ~obs)
+                    diag = (f"; {missing} (flagged, or transitively including a flagged template) stay(s) unmarked, while the same pages and flags "
+                            f"on a fresh database are marked correctly ({case['marked_on_fresh_database']}): the earlier marks make the analysis skip work it has to do")
+            o.violation(case, f"{ctx_txt}: {why}; marked {case['marked_by_code']}, required {case['required']} (at most {case['allowed_at_most']}){diag}",
+                        cls="H:" + why.split(" ")[0])
 
 
 def report(o: Outcome, structs, results, gen: str, counts: dict):
@@ -284,10 +454,11 @@ CONSTANTS
   MaxN = {maxn}
   MaxRedirects = {maxred}
   Combos <- {combos}
+  HistKinds <- KindsQ
   Parts = {parts}
   Part = {part}
   MaxLen = 0
-INVARIANT GenInv
+INVARIANT {inv}
 CHECK_DEADLOCK FALSE
 """
 
@@ -312,7 +483,7 @@ def par(jobs: dict) -> dict:
     return {k: res[k] for k in jobs}
 
 
-def gen_parallel(o: Outcome, name, maxn, maxred, combos, parts):
+def gen_parallel(o: Outcome, name, maxn, maxred, combos, parts, inv="GenInv"):
     """Run `parts` TLC generator processes side by side (each -workers 1)."""
     res = [None] * parts
     err = []
@@ -320,7 +491,7 @@ def gen_parallel(o: Outcome, name, maxn, maxred, combos, parts):
     def one(i):
         try:
             res[i] = tlc("Gen_Analyze", f"gen{i}.cfg", workers=1, timeout=3000,
-                         cfg_text=GEN_CFG.format(maxn=maxn, maxred=maxred, combos=combos, parts=parts, part=i))
+                         cfg_text=GEN_CFG.format(maxn=maxn, maxred=maxred, combos=combos, parts=parts, part=i, inv=inv))
         except Exception as e:  # noqa: BLE001
             err.append(e)
 
@@ -470,7 +641,89 @@ def record_worlds(rng, u, n):
     return events
 
 
-def validate_trace(o: Outcome, events, u):
+def _timed(fn, limit):
+    signal.signal(signal.SIGALRM, _alarm)
+    signal.setitimer(signal.ITIMER_REAL, limit)
+    try:
+        fn()
+    finally:
+        signal.setitimer(signal.ITIMER_REAL, 0)
+
+
+def record_histories(rng, u, n, tid0):
+    """Random histories on one database: pages are added, analysed, further pages are added
+    (some with need_pre_expand=True), stored ones overwritten (other inclusions, other
+    classifier answer; the row's mark is reset by add_page), analysed again, 2-3 rounds.
+    One event per analyze_templates call: the stored pages in database order, the marks
+    present before the call (`pre`, as read from the database) and after it."""
+    events = []
+    with Scratch("c17h-") as d:
+        r = Runner(d)
+        for h in range(n):
+            if _nonterm is not None and _nonterm.value >= GIVE_UP_AFTER:
+                break
+            pages = rand_world(rng, u)
+            ctx = r.fresh()
+            tns = ctx.NAMESPACE_DATA["Template"]["id"]
+            by = {}
+
+            def put(p, mark=False):
+                red = conc_red(p["redirect"])
+                kw = {"need_pre_expand": True} if mark else {}
+                if red is None:
+                    ctx.add_page(conc(p["title"]), tns, body="intro " + " and ".join("{{%s|1=x}}" % conc(w) for w in p["uses"]) + " end", **kw)
+                else:
+                    ctx.add_page(conc(p["title"]), tns, redirect_to=red, **kw)
+                by[conc(p["title"])] = p
+
+            def classifier(wtp, page):
+                used = set(re.findall(r"\{\{([^|{}]+)", page.body)) if page.body else set()
+                return used, by[page.title]["flag"]
+
+            early = [p for p in pages if rng.random() < 0.6] or pages[:1]
+            if not any(p["flag"] for p in early):  # the first analysis should leave marks behind
+                early[0]["flag"] = True
+            late = [p for p in pages if not any(p is q for q in early)]
+            for p in early:
+                put(p, mark=rng.random() < 0.1)
+            for rd in range(rng.randint(2, 3)):
+                if rd:
+                    k = rng.randint(1, max(1, len(late)))
+                    for p in late[:k]:
+                        put(p, mark=rng.random() < 0.15)
+                    late = late[k:]
+                    for p in list(by.values()):
+                        if p["redirect"] == ["-"] and rng.random() < 0.2:  # overwritten with another text
+                            uses = [w for w in p["uses"] if rng.random() < 0.6]
+                            if rng.random() < 0.6:
+                                w = spell(rng, u, rng.choice(pages)["title"][1:])
+                                if w not in uses:
+                                    uses.append(w)
+                            put({"title": p["title"], "redirect": ["-"], "uses": uses, "flag": rng.random() < 0.25})
+                rows = list(ctx.get_all_pages([tns]))
+                order = [by[x.title] for x in rows]
+                pre = [by[x.title]["title"] for x in rows if x.need_pre_expand]
+                ev = {"tid": tid0 + len(events), "history": h, "pages": [dict(p) for p in order], "pre": pre, "terminated": True, "marked": []}
+                try:
+                    _timed(lambda: ctx.analyze_templates(classifier), 3 * TIMEOUT_S)
+                    ctx.db_conn.commit()
+                    ev["marked"] = [by[x.title]["title"] for x in ctx.get_all_pages([tns]) if x.need_pre_expand]
+                except NonTermination:
+                    ev["terminated"] = False
+                    if _nonterm is not None:
+                        with _nonterm.get_lock():
+                            _nonterm.value += 1
+                except Exception as e:  # noqa: BLE001
+                    ev["error"] = "exception " + repr(e)
+                events.append(ev)
+                if not ev["terminated"] or "error" in ev:
+                    r.drop()
+                    break
+        r.drop()
+    return events
+
+
+def validate_trace(o: Outcome, events, u, drift=None):
     with Scratch("c17t-") as d:
         tf = d / "trace.json"
         tf.write_text(json.dumps({"pfxns": u["pfxns"], "canon": u["canon"], "upper": u["upper"],
@@ -487,20 +740,41 @@ def validate_trace(o: Outcome, events, u):
             raise common.TLCError(f"trace consumed {v['consumed']} of {len(events)} events")
         for b in v["bad"]:
             bad[b["i"]] = b
-    return [bad[k] for k in sorted(bad)]
+    if drift is not None:
+        drift.extend(bad[k] for k in sorted(bad) if bad[k]["why"] == "drift")
+    return [bad[k] for k in sorted(bad) if bad[k]["why"] != "drift"]
 
 
-def run_v(o: Outcome, n):
+def vcase(u, ev, b):
+    case = {"kind": "V", "universe": {k: u[k] for k in ("pfxns", "canon", "upper", "tplns")}, "event": ev,
+            "pages": [{"title": conc(p["title"]), "redirect": conc_red(p["redirect"]), "uses": [conc(w) for w in p["uses"]], "flag": p["flag"]} for p in ev["pages"]],
+            "marked_by_code": [conc(t) for t in ev["marked"]],
+            "required": sorted(conc(t) for t in b["lower"]),
+            "allowed_at_most": sorted(conc(t) for t in b["upper"])}
+    if ev.get("pre"):
+        case["marked_before_the_call"] = [conc(t) for t in ev["pre"]]
+        case["closure_of_flagged_and_earlier_marks"] = sorted(conc(t) for t in b["ideal"])
+    return case
+
+
+def run_v(o: Outcome, n, nh):
     rng = random.Random(common.seed() * 7919 + 17)
     u = universe()
     events = record_worlds(rng, u, n)
-    bad = validate_trace(o, events, u)
+    hevents = record_histories(random.Random(common.seed() * 7919 + 29), u, nh, len(events))
+    events = events + hevents
+    drift = []
+    bad = validate_trace(o, events, u, drift)
     o.traces += len(events)
     o.evaluations += len(events)
     o.extra["trace_worlds"] = len(events)
+    o.extra["trace_history_calls"] = len(hevents)
+    o.extra["trace_history_calls_with_earlier_marks"] = sum(1 for e in hevents if e["pre"])
     for e in events:
-        if any(p["flag"] for p in e["pages"]):
-            o.shape(("V", common.json_key(e["pages"])))
+        if any(p["flag"] for p in e["pages"]) or e.get("pre"):
+            o.shape(("V", common.json_key([e["pages"], e.get("pre", [])])))
+    for b in drift:
+        o.note_drift(vcase(u, events[b["i"] - 1], b))
     nb = 0
     for b in bad:
         ev = events[b["i"] - 1]
@@ -509,20 +783,24 @@ def run_v(o: Outcome, n):
         nb += 1
         if nb > MAXV:
             continue
-        case = {"kind": "V", "universe": {k: u[k] for k in ("pfxns", "canon", "upper", "tplns")}, "event": ev,
-                "pages": [{"title": conc(p["title"]), "redirect": conc_red(p["redirect"]), "uses": [conc(w) for w in p["uses"]], "flag": p["flag"]} for p in ev["pages"]],
-                "marked_by_code": [conc(t) for t in ev["marked"]],
-                "required": sorted(conc(t) for t in b["lower"]),
-                "allowed_at_most": sorted(conc(t) for t in b["upper"])}
+        case = vcase(u, ev, b)
+        hist = (f" on a database that already carries marks (marked before the call: {case['marked_before_the_call']}; recorded history of "
+                f"add_page / analyze_templates calls; flagged by the classifier: {[conc(p['title']) for p in ev['pages'] if p['flag']]})"
+                if ev.get("pre") else "")
         if "error" in ev:
             o.violation(case, "analyze_templates raised: " + ev["error"], cls="V:exception")
         elif b["why"] == "asis":
             o.classify(case, f"analyze_templates marked {case['marked_by_code']}, the property requires {case['required']}: names written in another spelling than the stored title are not followed",
                        [DEV_NAMES], cls="V:asis")
+        elif b["why"] == "reseed":
+            o.classify(case, f"analyze_templates{hist} marked {case['marked_by_code']}, the property requires {case['required']}: "
+                             "a template that transitively includes a flagged one only through a template marked before the call stays unmarked",
+                       [DEV_RESEED], cls="V:reseed")
         elif b["why"] == "nontermination":
-            o.violation(case, f"analyze_templates did not terminate within {3 * TIMEOUT_S}s", cls="V:nontermination")
+            o.violation(case, f"analyze_templates{hist} did not terminate within {3 * TIMEOUT_S}s", cls="V:nontermination")
         else:
-            o.violation(case, f"analyze_templates marked {case['marked_by_code']}, required {case['required']} (at most {case['allowed_at_most']})", cls="V:other")
+            o.violation(case, f"analyze_templates{hist} marked {case['marked_by_code']}, required {case['required']} (at most {case['allowed_at_most']})",
+                        cls="V:other-earlier-marks" if hist else "V:other")
     if events:
         e = events[0]
         o.sample({"recorded_world": [{"title": conc(p["title"]), "redirect": conc_red(p["redirect"]), "uses": [conc(w) for w in p["uses"]], "flag": p["flag"]} for p in e["pages"]],
@@ -543,6 +821,7 @@ CONSTANTS
   MaxN = {maxn}
   MaxRedirects = {maxred}
   Combos <- {combos}
+  HistKinds <- {kinds}
 {props}
 CHECK_DEADLOCK FALSE
 """
@@ -559,7 +838,11 @@ def run(tier: str) -> int:
         "G: one case = (pages in database order with redirect targets and the names written in each body, flag set); "
         "all structures on <= MaxN pages (every edge set, every redirect placement) x every flag set x name-set/spelling-scheme "
         "combos are enumerated by TLC; distinct by (pages, flags); non-trivial = at least one flagged page and one inclusion or redirect. "
-        "Sim/V: random worlds on <= 8 pages, distinct by content."
+        "Sim/V: random worlds on <= 8 pages, distinct by content. "
+        "H: one case = (structure, set of pages marked before the call, flag set): all structures on <= 3 pages x every non-empty set of earlier marks "
+        "x every flag set (3-page cases with all pages marked or all flagged are not run), the earlier marks produced by add_page(need_pre_expand=True), "
+        "by a real earlier analysis followed by adding the other templates, or by an overwrite file, in rotation; distinct by (pages, earlier marks, flags); "
+        "non-trivial = at least one inclusion or redirect. V histories: one event per analyze_templates call of a random add/analyse/overwrite/analyse history."
     )
     o.assumptions = [
         "stored titles carry the canonical namespace prefix and contain no underscores (as dumps deliver them)",
@@ -568,13 +851,35 @@ def run(tier: str) -> int:
         f"non-termination is observed as a call on <= 8 pages exceeding {TIMEOUT_S}s and, re-tried, {3 * TIMEOUT_S}s",
         "the statement's 'plus redirects from or to a marked template' is read as: not less than closure + its redirect neighbours, "
         "not more than the least set closed under inclusion and redirects in both directions",
+        "a call on a database that already carries marks: the statement is read as demanding at least closure(flagged now) + redirect neighbours "
+        "(whatever the earlier marks are) and allowing at most the full fixpoint from flagged + earlier marks (analysis never removes a mark; "
+        "clearing stale marks is not demanded); the model's result, closure(flagged + earlier marks) + redirect neighbours, is demanded only as DRIFT",
+        "the classifier's answer for a page may differ between two calls of a history (it depends on the page's current text)",
     ]
     # ---- M and the generators: independent TLC processes side by side
     inv = "INVARIANT ResultIsClosure\nINVARIANT ResultWithinStatement\nINVARIANT NeverOvermarks\nINVARIANT PushedOnce"
+    inv_h = ("INVARIANT ResultIsIdealH\nINVARIANT ResultWithinStatementH\nINVARIANT NeverOvermarksH\n"
+             "INVARIANT KeepsEarlierMarks\nINVARIANT PushedOnce")
     jobs = {
         "MC_ideal": lambda: tlc("MC_Analyze", "mc.cfg", workers=6, timeout=3000, coverage=True,
-                                cfg_text=MC_CFG.format(spec="MCSpec", dev="DevIdeal", maxn=3, maxred=3,
+                                cfg_text=MC_CFG.format(spec="MCSpec", dev="DevIdeal", maxn=3, maxred=3, kinds="KindsQ",
                                                        combos="CombosAll" if thorough else "CombosQ2", props=inv)),
+        # histories (analyse, add / overwrite the last page, analyse again) and calls on a
+        # database with arbitrary earlier marks
+        "MC_hist": lambda: tlc("MC_Analyze", "mch.cfg", workers=3 if thorough else 2, timeout=3000,
+                               cfg_text=MC_CFG.format(spec="MCHSpec", dev="DevIdeal", maxn=3, maxred=1 if thorough else 0,
+                                                      kinds="KindsAll" if thorough else "KindsQ",
+                                                      combos="CombosQ2" if thorough else "CombosExact",
+                                                      props=inv_h + ("\nPROPERTY TerminatesH" if thorough else ""))),
+        "MC_pre": lambda: tlc("MC_Analyze", "mcp.cfg", workers=2 if thorough else 1, timeout=3000,
+                              cfg_text=MC_CFG.format(spec="MCPSpec", dev="DevIdeal", maxn=3 if thorough else 2, maxred=1, kinds="KindsQ",
+                                                     combos="CombosExact" if thorough else "CombosQ2", props=inv_h + "\nPROPERTY Terminates")),
+        "MC_hist_asis": lambda: tlc("MC_Analyze", "mcha.cfg", workers=2 if thorough else 1, timeout=3000, coverage=True,
+                                    cfg_text=MC_CFG.format(spec="MCHSpec", dev="DevNoReseed", maxn=3 if thorough else 2, maxred=1, kinds="KindsAll",
+                                                           combos="CombosExact", props="INVARIANT ResultIsAsIsH\nINVARIANT KeepsEarlierMarks\nINVARIANT PushedOnce")),
+        "Demo_Analyze_reseed.cfg": lambda: tlc("MC_Analyze", "Demo_Analyze_reseed.cfg", workers=1, check=False),
+        "SimH": lambda: tlc("Gen_Analyze", "SimH_Analyze.cfg", workers=1, timeout=3000,
+                            extra=["-simulate", f"num={60 if thorough else 4}", "-depth", "14", "-seed", str(common.seed() + 23)]),
         "MC_live": lambda: tlc("MC_Analyze", "MC_Analyze_live.cfg", workers=3, timeout=3000),
         "MC_asis": lambda: tlc("MC_Analyze", "MC_Analyze_asis.cfg", workers=2, timeout=3000),
         "Demo_Analyze_exact.cfg": lambda: tlc("MC_Analyze", "Demo_Analyze_exact.cfg", workers=1, check=False),
@@ -582,29 +887,36 @@ def run(tier: str) -> int:
         "Sim": lambda: tlc("Gen_Analyze", "Sim_Analyze.cfg", workers=1, timeout=3000,
                            extra=["-simulate", f"num={120 if thorough else 8}", "-depth", "14", "-seed", str(common.seed() + 17)]),
     }
-    gens = [("Gen3", 3, 3, "CombosAll" if thorough else "CombosQ", 3 if thorough else 2)]
-    for (name, maxn, maxred, combos, parts) in gens:
+    gens = [("Gen3", 3, 3, "CombosAll" if thorough else "CombosQ", 3 if thorough else 2, "GenInv"),
+            ("GenH3", 3, 3 if thorough else 1, "CombosQ" if thorough else "CombosB2", 4 if thorough else 1, "GenHInv")]
+    for (name, maxn, maxred, combos, parts, ginv) in gens:
         for i in range(parts):
-            jobs[f"{name}[{i}]"] = (lambda maxn=maxn, maxred=maxred, combos=combos, parts=parts, i=i:
-                                    tlc("Gen_Analyze", f"gen{i}.cfg", workers=1, timeout=3000,
-                                        cfg_text=GEN_CFG.format(maxn=maxn, maxred=maxred, combos=combos, parts=parts, part=i)))
+            jobs[f"{name}[{i}]"] = (lambda name=name, maxn=maxn, maxred=maxred, combos=combos, parts=parts, i=i, ginv=ginv:
+                                    tlc("Gen_Analyze", f"{name.lower()}{i}.cfg", workers=1, timeout=3000,
+                                        cfg_text=GEN_CFG.format(maxn=maxn, maxred=maxred, combos=combos, parts=parts, part=i, inv=ginv)))
     res = par(jobs)
     for name, r in res.items():
-        if name == "Sim":
+        if name in ("Sim", "SimH"):
             m = re.search(r"The number of states generated: (\d+)", r.out)
             r.generated = r.distinct = int(m.group(1)) if m else 0
         o.add_tlc(name, r)
     o.extra["action_coverage"] = {k: v[1] for k, v in res["MC_ideal"].coverage_actions().items()}
-    for demo in ("Demo_Analyze_exact.cfg", "Demo_Analyze_stale.cfg"):
+    o.extra["action_coverage_histories"] = {k: v[1] for k, v in res["MC_hist_asis"].coverage_actions().items()}
+    if not o.extra["action_coverage_histories"].get("Rerun"):
+        raise common.TLCError("the history model never took the Rerun action (vacuity guard)")
+    for demo in ("Demo_Analyze_exact.cfg", "Demo_Analyze_stale.cfg", "Demo_Analyze_reseed.cfg"):
         r = res[demo]
         found = bool(r.invariant_violated) or r.property_violated or bool(re.search(r"Temporal propert\w+ .*violated", r.out))
         o.extra["demo_" + demo] = found
         if not found:
             raise common.TLCError(f"{demo} no longer shows its counterexample (vacuity guard)")
     # ---- G exhaustive
-    structs = []
+    structs, hstructs = [], []
     for name, r in res.items():
-        if name.startswith("Gen"):
+        if name.startswith("GenH"):
+            have = {common.json_key(x["pages"]) for x in hstructs}
+            hstructs.extend(x for x in r.tagged("HCASE") if common.json_key(x["pages"]) not in have)
+        elif name.startswith("Gen"):
             structs.extend(r.cases)
     if thorough:
         structs += gen_parallel(o, "Gen4", 4, 1, "CombosB", 14)
@@ -626,11 +938,30 @@ def run(tier: str) -> int:
         seen.add(key)
         scases.append({"pages": c["pages"], "flags": c["flags"], "res": c["res"]})
     report(o, scases, pmap(run_chunk, list(enumerate(scases))), "simulate", counts)
+    # ---- G on databases that already carry marks: exhaustive (structure x earlier marks x flags) and simulated
+    hres_ = pmap(run_chunk, list(enumerate(hstructs)))
+    report_h(o, hstructs, hres_, "exhaustive", counts)
+    hs = hstructs[len(hstructs) // 2]
+    hq, hm = (2 if len(hs["hres"]) >= 2 else 1), 1
+    o.sample({"pages": [{"title": conc(p["title"]), "redirect": conc_red(p["redirect"]), "uses": [conc(w) for w in p["uses"]]} for p in hs["pages"]],
+              "marked_before_the_call": names_of(hs["pages"], hq), "flagged": names_of(hs["pages"], hm),
+              "required": names_of(hs["pages"], hs["hres"][hq - 1][hm][0]), "allowed_at_most": names_of(hs["pages"], hs["hres"][hq - 1][hm][1])})
+    seen = set()
+    shcases = []
+    for c in res["SimH"].tagged("SIMH"):
+        key = common.json_key([c["pages"], c["flags"], c["pre"]])
+        if key in seen:
+            continue
+        seen.add(key)
+        shcases.append({"pages": c["pages"], "flags": c["flags"], "pre": c["pre"], "hres": c["hres"]})
+    report_h(o, shcases, pmap(run_chunk, list(enumerate(shcases))), "simulate", counts)
+    o.extra["cases_earlier_marks_exhaustive"] = sum(x[1] for x in hres_)
+    o.extra["cases_earlier_marks_simulated"] = len(shcases)
     o.extra["cases_exhaustive"] = sum(len(x["res"]) for x in structs)
     o.extra["structures_exhaustive"] = len(structs)
     o.extra["cases_simulated"] = len(scases)
     # ---- V
-    run_v(o, 1500 if thorough else 150)
+    run_v(o, 1500 if thorough else 150, 300 if thorough else 25)
     o.extra["violation_counts"] = counts
     return o.finish()
 
@@ -640,6 +971,26 @@ def replay(path: str) -> int:
     case = v["case"]
     print(json.dumps({k: case[k] for k in case if k not in ("abstract", "event", "universe")}, indent=1, ensure_ascii=False))
     common.use_repo()
+    if case["kind"] == "H" or (case["kind"] == "V" and case["event"].get("pre")):
+        # a call on a database that already carried marks
+        if case["kind"] == "H":
+            a = case["abstract"]
+            pages, flags, pre, res, mode = a["pages"], a["flags"], a["pre"], a["hres"], a["mode"]
+        else:
+            pages = case["event"]["pages"]
+            idx = {conc(p["title"]): i for i, p in enumerate(pages)}
+            flags = sum(1 << i for i, p in enumerate(pages) if p["flag"])
+            pre = sum(1 << idx[conc(t)] for t in case["event"]["pre"])
+            res = [sum(1 << idx[t] for t in case[k]) for k in ("required", "allowed_at_most", "closure_of_flagged_and_earlier_marks")] + [-1]
+            mode = H_DIRECT
+        with Scratch("c17r-") as d:
+            r = Runner(d)
+            obs, note = r.run(pages, {i for i in range(len(pages)) if flags >> i & 1},
+                              pre=frozenset(i for i in range(len(pages)) if pre >> i & 1), hmode=mode)
+            r.drop()
+        kind, why = judge_h(obs, note, *res)
+        print("re-executed (%s): marked" % HMODES[mode], None if obs is None else names_of(pages, obs), "->", kind, why)
+        return 0 if kind in ("ok", "drift") else 1
     if case["kind"] == "G":
         a = case["abstract"]
         pages, flags, res = a["pages"], a["flags"], a["res"]
@@ -679,7 +1030,7 @@ def selftest() -> int:
     bad2 = validate_trace(o, ev, u)
     print(f"V: clean trace: {len(base)} rejected; +1 spurious mark: {len(bad1)} rejected {[b['i'] for b in bad1]}; -1 mark: {len(bad2)} rejected")
     # G: corrupt an expected mask
-    r = tlc("Gen_Analyze", "g.cfg", workers=1, cfg_text=GEN_CFG.format(maxn=2, maxred=1, combos="CombosExact", parts=1, part=0))
+    r = tlc("Gen_Analyze", "g.cfg", workers=1, cfg_text=GEN_CFG.format(maxn=2, maxred=1, combos="CombosExact", parts=1, part=0, inv="GenInv"))
     structs = r.cases
     res = run_chunk(list(enumerate(structs)))
     total = sum(len(x["res"]) for x in structs)
@@ -689,4 +1040,26 @@ def selftest() -> int:
     res2 = run_chunk([(0, c2)])
     verdict = res2[0][3][0][3] if res2[0][3] else "ok"
     print(f"G: {good}/{total} exact-spelling cases agree; corrupted expectation judged: {verdict}")
-    return 0 if (not base and bad1 and bad2 and good == total and verdict == "bad") else 1
+    # calls on a database that already carries marks: G (expected values of TLC vs a corrupted one) and V
+    rh = tlc("Gen_Analyze", "gh.cfg", workers=1, cfg_text=GEN_CFG.format(maxn=2, maxred=1, combos="CombosExact", parts=1, part=0, inv="GenHInv"))
+    hs = rh.tagged("HCASE")
+    resh = run_chunk(list(enumerate(hs)))
+    htotal = sum(x[1] for x in resh)
+    hbad = sum(1 for x in resh for y in x[3] if y[5] == "bad")
+    c = next(x for x in hs if len(x["pages"]) == 2 and all(p["uses"] == [] and p["redirect"] == ["-"] for p in x["pages"]))
+    # two unrelated pages, the first one marked earlier, nothing flagged; corrupted claim: both must be marked
+    res3 = run_chunk([(0, {"pages": c["pages"], "flags": 0, "pre": 1, "hres": [3, 3, 3, 3], "mode": H_HISTORY})])
+    hverdict = res3[0][3][0][5] if res3[0][3] else "ok"
+    print(f"H: {htotal - hbad}/{htotal} cases with earlier marks within the statement; corrupted expectation judged: {hverdict}")
+    hev = record_histories(random.Random(5), u, 12, 0)
+    rej = {b["i"] for b in validate_trace(o, hev, u)}
+    hev = [e for i, e in enumerate(hev, 1) if i not in rej]
+    hbase = validate_trace(o, hev, u)
+    k = next(i for i, e in enumerate(hev) if e["pre"] and any(p["flag"] for p in e["pages"]))
+    flagged_t = next(p["title"] for p in hev[k]["pages"] if p["flag"])
+    hev[k]["marked"] = [t for t in hev[k]["marked"] if t != flagged_t]  # claim a flagged page was left unmarked
+    hbad1 = validate_trace(o, hev, u)
+    print(f"V histories: {sum(1 for e in hev if e['pre'])} recorded calls with earlier marks, clean: {len(hbase)} rejected; "
+          f"flagged page unmarked: {len(hbad1)} rejected {[b['i'] for b in hbad1]}")
+    return 0 if (not base and bad1 and bad2 and good == total and verdict == "bad"
+                 and hbad == 0 and hverdict == "bad" and not hbase and [b["i"] for b in hbad1] == [k + 1]) else 1
